@@ -578,6 +578,45 @@ def coreast(bindir, workspaces, timeout=900, chunk=60):
     return out
 
 
+def core_from_texts(wss, cas):
+    """The typed AST of each workspace computed INSIDE Coq from the texts (group bridge's extracted pipeline `bridge_run corews`:
+    model parser, generated accessor table, modelled include resolution).  Returns (objects to feed the slice with, stats,
+    disagreements): the bridge's object where it yields a Core AST, else the harness object; a Core AST on one side that is
+    not, character for character, the other side's is a broken correspondence (reported with the workspace)."""
+    import bridgelib
+    stats = {"bridge_core": 0, "bridge_equal": 0, "bridge_none": 0}
+    try:
+        bexe = vlib.build_model("bridge")
+        brs = bridgelib.core_via_bridge(bexe, [{"root": w["root"], "files": dict(w["files"])} for w in wss])
+    except Exception as ex:            # the bridge unit is another group's: without it the harness AST is used, as before
+        stats["bridge_error"] = "%s: %s" % (type(ex).__name__, str(ex)[:300])
+        stats["bridge_none"] = len(wss)
+        return cas, stats, []
+    out, bad = [], []
+    for w, c, b in zip(wss, cas, brs):
+        c_ast = c.get("ast") if isinstance(c, dict) else None
+        b_ast = b.get("ast") if isinstance(b, dict) else None
+        if not b_ast:
+            stats["bridge_none"] += 1
+            out.append(c)
+            if c_ast and len(dict(w["files"])) == len(w["files"]):
+                bad.append({"files": w["files"], "root": w["root"], "kind": "bridge-vs-coreast",
+                            "model": {"bridge": {k: b.get(k) for k in ("noncore", "panic", "files")} if isinstance(b, dict) else str(b)[:200]},
+                            "observed": {"coreast": "Core AST of %d files" % len(c["files"])}})
+            continue
+        stats["bridge_core"] += 1
+        if c_ast == b_ast and c["files"] == b["files"]:
+            stats["bridge_equal"] += 1
+        else:
+            k = next((i for i in range(min(len(c_ast or ""), len(b_ast))) if (c_ast or "")[i] != b_ast[i]), 0)
+            bad.append({"files": w["files"], "root": w["root"], "kind": "bridge-vs-coreast",
+                        "model": {"files": b["files"], "ast_at_first_difference": b_ast[max(0, k - 60):k + 80]},
+                        "observed": {"files": c.get("files") if isinstance(c, dict) else None,
+                                     "ast_at_first_difference": (c_ast or "<not Core>")[max(0, k - 60):k + 80]}})
+        out.append(b)
+    return out, stats, bad
+
+
 def oix_compare(exe, items):
     """items: list of (workspace, outdump object, coreast object).  Runs the indexer-slice model on the typed AST of the real
     parse trees and compares (1) its op sequence with the projection of the real op log (file numbers mapped through the
